@@ -22,6 +22,7 @@ import numpy as np
 from harness import core, scriptgen
 from harness import c01_enc as enc
 from harness import c01_gen as gen
+from harness import c01_eager
 
 PROP_MODULES = ["OV.Props.C01"]
 HEADER_EXTRA = "from typing import Tuple\nfrom onnxscript import opset11, opset12, opset13\n" + gen.HELPERS_SRC
@@ -232,7 +233,9 @@ class Pipeline:
 
     def __init__(self, run: core.Run):
         self.run = run
-        self.drv = core.Driver("C01")
+        # the driver was built under the shared lock by `run_batches` before the workers started; taking the lock again
+        # in every worker only queues behind other people's builds (observed: batches timing out on a busy machine)
+        self.drv = c01_eager.model_driver()
         self.stats: Counter = Counter()
         self.features: Counter = Counter()
         self.tie_broken: list[dict] = []
@@ -640,6 +643,15 @@ def main(run: core.Run) -> None:
     if run.replay_path:
         body = json.loads(open(run.replay_path).read())
         case = body["case"]
+        if case.get("meta", {}).get("kind") in ("eager-call", "separate-call"):
+            eg = c01_eager.replay(case) if case["meta"]["kind"] == "eager-call" else c01_eager.replay_separate(case)
+            for t in eg["ties"]:
+                print("REPLAY tie:", t["tie"])
+            for f in eg["failures"] + eg["known"]:
+                print("REPLAY property:", f["what"])
+            eager_verdict(run, eg, findings)
+            run.coverage.update(evaluations=1, distinct_nontrivial=1)
+            return
         m = dict(case["meta"])
         if case.get("feeds"):
             m["inputs"] = [{"feeds": case["feeds"], "attrs": case.get("attrs") or {}}]
@@ -699,9 +711,48 @@ def main(run: core.Run) -> None:
         pf += spf
         stats.update(sstats)
     pf = split_known(run, pf, findings)
+    # the eager calling convention (eval_function / tag_arguments_with_signature / _adapt_to_*): real vs Lean model vs
+    # the plain-Python reading of the call, on real signatures (theorem `eager_is_python`)
+    eg = c01_eager.stream(run, run.size(12, 80), run.size(14, 40))
+    for k, v in eg["stats"].items():
+        stats[k] = stats.get(k, 0) + v
+    eager_verdict(run, eg, findings)
+    # `separate_input_attributes_from_arguments` (inputs by position / attributes of a call expression) on real operator
+    # signatures: real vs Lean (`separate`) vs the closed form of `separate_inputs_attributes_spec`
+    sp = c01_eager.separate_stream(run, run.size(300, 3000))
+    for k, v in sp["stats"].items():
+        stats[k] = stats.get(k, 0) + v
+    eager_verdict(run, sp, findings, what="separate_input_attributes_from_arguments",
+                  broken="correspondence OV.C01.Eager.separate vs param_manipulation.separate_input_attributes_from_arguments")
     # a corpus witness is *expected* to disagree structurally only if the model is wrong about it: ties count as usual
     verdict(run, audit, stats, features, ties, pf, "C01", PROP_MODULES, refusals)
-    require_coverage(stats, features, REQUIRED_STATS_C01, REQUIRED_FEATURES_C01)
+    if not run.violations:  # a counter that is zero because the code behaves differently is a violation, reported above
+        require_coverage(stats, features, REQUIRED_STATS_C01 + c01_eager.REQUIRED + c01_eager.REQUIRED_SEP, REQUIRED_FEATURES_C01)
+
+
+def eager_verdict(run: core.Run, eg: dict, findings: dict, what: str = "eager calling convention",
+                  broken: str = "correspondence OV.C01.Eager.eagerCall vs BaseEvaluator.eval_function") -> None:
+    failures = list(eg["failures"])
+    if eg["known"]:
+        if "C01-D49" in findings:  # only while the finding is open (it is fixed since 29a1f68: a recurrence is a violation)
+            k = eg["known"][0]
+            run.known("C01-D49", f"{findings['C01-D49']['what'][:160]} :: {len(eg['known'])} calls, e.g. "
+                      f"{k['meta']['name']}(*{k['call']['args']}, **{k['call']['kwargs']}): {k['what'][:160]}")
+        else:
+            failures += eg["known"]
+    strip = lambda c: {k: v for k, v in c.items() if k not in ("line",)}  # noqa: E731
+    if failures:
+        failures.sort(key=lambda f: len(f["line"]))
+        f = failures[0]
+        run.violation(dict(strip(f), others=len(failures) - 1),
+                      f"{f['what']} :: call {f['meta']['name']}(*{f['call']['args']}, **{f['call']['kwargs']}) of\n{f['meta']['src']}")
+    elif eg["ties"]:
+        eg["ties"].sort(key=lambda t: len(t["line"]))
+        t = eg["ties"][0]
+        run.violation(dict(strip(t), broken=broken, others=len(eg["ties"]) - 1),
+                      f"correspondence broken ({what}): {t['tie']}; on no generated call does the real code "
+                      f"differ from the reference reading of the call :: {t['meta']['name']}(*{t['call']['args']}, "
+                      f"**{t['call']['kwargs']}) of\n{t['meta']['src']}", no_input=True)
 
 
 # branches of the modelled code / classes of programs every run must have exercised (an empty class means the
